@@ -563,7 +563,8 @@ def oracle(case, obs):
     if "raise" in obs:
         if kind == "dict" and any(v is None for v in values):
             return None  # the dictionary encoding does not support nulls
-        return f"{kind} column over {values!r} must build and expand, raised {obs['raise']} in {obs['stage']}"
+        shown = repr(values) if len(values) <= 40 else f"{values[:8]!r}... ({len(values)} elements)"
+        return f"{kind} column over {shown} must build and expand, raised {obs['raise']} in {obs['stage']}"
     stored = [dec(x) for x in obs["values"]]
     aux = obs["aux"]
     mat = [dec(x) for x in obs["mat"]]
@@ -1340,6 +1341,17 @@ def search(rng):
 
 
 def shrink(case):
+    """candidates of one pass; the framework restarts after each improvement and checks its 20 s budget only then,
+    so one pass over a long sequence is bounded here (observing a 65 000-element column costs ~0.3 s)"""
+    import time
+    t_end = time.time() + 8
+    for k, cand in enumerate(_shrink(case)):
+        if k >= 40 and time.time() > t_end:
+            return
+        yield cand
+
+
+def _shrink(case):
     if "script" in case:
         sc = case["script"]
         for i in range(len(sc)):
